@@ -833,3 +833,32 @@ Proof.
   specialize (H E_sub true Codec v_sub (TDc 2) false CNone Hw eq_refl eq_refl (fun _ => eq_refl)).
   rewrite Hp, Ht in H. discriminate.
 Qed.
+
+(* mixin path, a field declared with Base (not opted in) holding an instance of Sub(Base) (opted in) inside an
+   opted-in holder (known finding C19/subclass-declared-class-flags): the keyword list is computed from the
+   declared class, Sub's hooks see context=None although every class on the path of *instances* opted in *)
+Definition E_subctx : env :=
+  [ mk_cinfo [Build_field 0 TInt false] false false false false false;
+    Build_cinfo [Build_field 0 TInt false] true true false false true (Some 0) None None;
+    mk_cinfo [Build_field 1 (TDc 0) false] true true false false true ].
+Definition v_subctx : val := VInst 2 1 1 [(1, VInst 1 2 2 [(0, VInt)])].
+Lemma subctx_witness :
+  is_sub E_subctx 1 0 = true /\
+  pack E_subctx true Mixin v_subctx (TDc 2) true CTok = (true, [Pre 2 1 CTok; Pre 1 2 CNone; Post 1 2 CNone; Post 2 1 CTok]) /\
+  trav E_subctx true CTok v_subctx = [Pre 2 1 CTok; Pre 1 2 CTok; Post 1 2 CTok; Post 2 1 CTok].
+Proof. vm_compute. repeat split. Qed.
+
+(* the context statement over all structurally typed values (subclass instances admitted whatever their options) *)
+Definition context_subclass_full : Prop :=
+  forall E stubs v t k c i j, env_union_free E = true -> union_free t = true -> onpath E true v c i j ->
+    fst (pack E stubs Mixin v t true k) = true ->
+    (c_pre (cls E c) = true -> In (Pre c i k) (snd (pack E stubs Mixin v t true k))).
+Theorem subclass_context_refuted : ~ context_subclass_full.
+Proof.
+  intros H. destruct subctx_witness as [_ [Hp _]].
+  assert (onpath E_subctx true v_subctx 1 2 2) as Hon.
+  { eapply onpath_field with (n := 1); [reflexivity|left; reflexivity|]. apply onpath_here. reflexivity. }
+  specialize (H E_subctx true v_subctx (TDc 2) CTok 1 2 2 eq_refl eq_refl Hon).
+  rewrite Hp in H. simpl in H. specialize (H eq_refl eq_refl).
+  repeat (destruct H as [H|H]; [discriminate|]). contradiction.
+Qed.
